@@ -128,7 +128,7 @@ def spec (c : Case) (o : Obs) : Bool :=
   o.hasDict == c.mro.any (·.hasDict) &&
   o.weakrefable == (c.weakrefSlot || c.mro.any (·.hasWeakref)) &&
   -- unknown attributes
-  o.getUnknown == .attributeError && (o.hasDict || o.setUnknown == .attributeError) &&
+  o.getUnknown == .attributeError && (o.hasDict || o.setUnknown == .attributeError) && o.lookupDiff == [] &&
   -- `__class__` / `super()` users see the new class; foreign cells untouched
   (demandedLabels c).all (fun l => o.calls.any (·.1 == l)) &&
   o.calls.all (fun lv => lv.2 == .new || isOpaqueKey c lv.1.1) &&
